@@ -100,6 +100,30 @@ def strategy(tier):
     return _program(3 if tier == "quick" else 4)
 
 
+def _grid_ints(dim, salt):
+    return [(((i * 7 + salt * 3 + 11) * 13 + (i * i) % 5) % 9) - 4 for i in range(2 * dim * dim)]
+
+
+def grid(tier):
+    """Deterministic small programs: every object kind and constructor flag, created outside and inside a context of
+    every kind of context operator, read inside one and two contexts and after leaving them (so that no kind depends on
+    the luck of the seed)."""
+    for dim in ((3,) if tier == "quick" else (3, 4)):
+        base = [_grid_ints(dim, 20 + b) for b in range(4)]
+        for k in range(9):
+            for f in range(4):
+                for ci in range(3):                       # context operator: self-adjoint, Hamiltonian, density matrix
+                    inner = {"s": "with", "o": (ci + 1) % 3, "protect": False, "check": 255,
+                             "body": [{"s": "read", "o": 4}, {"s": "read", "o": 5}]}
+                    body = [{"s": "create", "kind": k, "data": _grid_ints(dim, k + 9 * f), "flag": f},
+                            {"s": "with", "o": ci, "protect": False, "check": 255,
+                             "body": [{"s": "read", "o": 4},
+                                      {"s": "create", "kind": k, "data": _grid_ints(dim, k + 9 * f + 1), "flag": f},
+                                      {"s": "read", "o": 5}, inner, {"s": "read", "o": 4}]},
+                            {"s": "read", "o": 4}, {"s": "read", "o": 5}]
+                    yield {"dim": dim, "cplx": False, "base": base, "degenerate": 0, "body": body}
+
+
 # ---------------------------------------------------------------------------
 # object construction from integer data
 # ---------------------------------------------------------------------------
@@ -123,7 +147,11 @@ def _value(kind, data, dim, cplx, flag, degenerate=0):
             H = numpy.diag(numpy.diag(H).real).astype(complex)                                 # already diagonal
         return H
     if kind == "ham":
-        return (M.real + M.real.T) / 10.0
+        H = (M.real + M.real.T) / 10.0
+        if flag == 2:
+            # (the variant whose weak couplings are split off: at least one coupling below the cut-off)
+            H[0, dim - 1] = H[dim - 1, 0] = 0.1
+        return H
     if kind == "dm":
         A = M if cplx else M.real.astype(complex)
         rho = A @ A.conj().T
